@@ -123,7 +123,13 @@ INFO = dict(
              "by the translation); that the iteration converges for members of one similarity class is decided by the "
              "oracle, not proved; max_iterations is fixed at 100 inside the constructor, so the not-converged exit is "
              "proved for the model (and shown on a concrete run) but is not driven through the public API",
-             "source translation: the rule tables of harness/trans_c07.py are trusted (numpy idioms read on the exact "
+             "source translation: rules are compositional (one rule per call / idiom; numpy's operators - * / @ unary minus "
+             "are chosen by the operand TYPES through scoped instances in Core/C07Src.lean: Np, so any sub-expression may be "
+             "named or inlined), calls without a rule to helpers of the same module / class are translated and inlined, "
+             "`for .. append` loops and comprehensions share one form, and every equality proof first rewrites the operators "
+             "to the model's words (np_* lemmas) and then splits on the MODEL's tests; what is not absorbed: a local bound to "
+             "a tuple-valued idiom that is indexed later (shape = U.shape; shape[0]), helpers that raise or mutate their "
+             "receiver, while loops.  The rule tables of harness/trans_c07.py are trusted (numpy idioms read on the exact "
              "model: h[:-1, -1] = v, np.fill_diagonal, E[-1, -1] = d, np.concatenate blocks, u[:, :keep] as zero-padding, "
              "the einsum strings of alpha_beta read for one triangle and one point, alpha / beta rows of one query point); "
              "which method a Cls.__init__(self, ...) call ends in is checked on the live MRO, not translated; dimension "
